@@ -313,38 +313,53 @@ Proof.
 Qed.
 
 (* the order in which one document's terms are visited does not matter either *)
+Lemma total_spec_inner ms ms' : Forall2 (@Permutation bytes) ms ms' -> total_spec ms = total_spec ms'.
+Proof.
+  unfold total_spec. induction 1 as [|d d' ms ms' Hd _ IH]; cbn [map zsum]; [reflexivity|].
+  rewrite (Permutation_length Hd), IH. reflexivity.
+Qed.
+
+Lemma existsb_perm {A} (p : A -> bool) l l' : Permutation l l' -> existsb p l = existsb p l'.
+Proof.
+  intros HP. apply eq_true_iff_eq. rewrite !existsb_exists.
+  split; intros (x & Hx & Px); exists x; split; auto.
+  - eapply Permutation_in; eauto.
+  - eapply Permutation_in; [symmetry|]; eauto.
+Qed.
+
+Lemma missing_spec_inner f ms ms' :
+  Forall2 (@Permutation bytes) ms ms' -> missing_spec f ms = missing_spec f ms'.
+Proof.
+  unfold missing_spec. induction 1 as [|d d' ms ms' Hd _ IH]; [reflexivity|].
+  rewrite !count_if_cons, IH, (existsb_perm _ _ _ Hd). reflexivity.
+Qed.
+
+Lemma occ_inner f k ms ms' : Forall2 (@Permutation bytes) ms ms' -> occ f k ms = occ f k ms'.
+Proof.
+  intros HP. unfold occ. destruct (accept f k); [|reflexivity].
+  induction HP as [|d d' ms ms' Hd _ IH]; cbn [map zsum]; [reflexivity|].
+  rewrite IH, (count_if_perm _ _ _ Hd). reflexivity.
+Qed.
+
 Lemma terms_facet_perm_inner f size ms ms' :
   Forall2 (@Permutation bytes) ms ms' -> terms_facet f size ms = terms_facet f size ms'.
 Proof.
   intros HP. unfold terms_facet, tfb_result.
   destruct (tfb_run_spec f ms) as (W1 & G1 & T1 & M1 & _).
   destruct (tfb_run_spec f ms') as (W2 & G2 & T2 & M2 & _). cbn zeta in *.
-  assert (ET : total_spec ms = total_spec ms').
-  { unfold total_spec. induction HP as [|d d' ms ms' Hd _ IH]; cbn [map zsum]; [reflexivity|].
-    rewrite (Permutation_length Hd), IH. reflexivity. }
-  assert (EM : missing_spec f ms = missing_spec f ms').
-  { unfold missing_spec. induction HP as [|d d' ms ms' Hd _ IH]; [reflexivity|].
-    rewrite !count_if_cons, IH. f_equal.
-    assert (E : existsb (accept f) d = existsb (accept f) d').
-    { apply eq_true_iff_eq. rewrite !existsb_exists. split; intros (x & Hx & Px); exists x; split; auto.
-      - eapply Permutation_in; eauto.
-      - eapply Permutation_in; [symmetry|]; eauto. }
-    rewrite E. reflexivity. }
-  rewrite T1, T2, M1, M2, ET, EM.
+  rewrite T1, T2, M1, M2, (total_spec_inner _ _ HP), (missing_spec_inner f _ _ HP).
   apply finish_ext; [exact W1|exact W2|].
-  intros k. rewrite G1, G2. unfold occ. destruct (accept f k); [|reflexivity].
-  induction HP as [|d d' ms ms' Hd _ IH]; cbn [map zsum]; [reflexivity|].
-  rewrite IH, (count_if_perm _ _ _ Hd). reflexivity.
+  intros k. rewrite G1, G2. apply occ_inner, HP.
 Qed.
 
 (* ---------- the collector: facets see every match, whatever the store does ---------- *)
 
 Section CollectorFacts.
-  Context {H S F : Type}.
+  Context {H S F D : Type}.
   Variable offer : S -> H -> S.
-  Variable facet_doc : F -> doc -> F.
+  Variable facet_doc : F -> D -> F.
 
-  Lemma collect_facets s0 f0 (ms : list (H * doc)) :
+  Lemma collect_facets s0 f0 (ms : list (H * D)) :
     snd (collect offer facet_doc s0 f0 ms) = fold_left facet_doc (map snd ms) f0.
   Proof.
     unfold collect. revert s0 f0. induction ms as [|m ms IH]; intros s0 f0; cbn [fold_left map]; [reflexivity|].
